@@ -67,6 +67,13 @@ def _fixture(two_pat, other_ctx):
         if other_ctx:
             with mdib.context_state_transaction() as tr:
                 tr.mk_context_state('PC.mds1', set_associated=True).Handle = 'pcs.mds1'
+            # the location context of the second MDS is created by the library's own helper (random handle), after the provider
+            # object exists - the way tests/test_device.py::TestDevice2Mds does it
+            mdib.xtra.ensure_location_context_descriptor()
+            created = [d.Handle for d in mdib.descriptions.objects
+                       if d.parent_handle == 'SC.mds1' and isinstance(d, dc.LocationContextDescriptorContainer)]
+            with mdib.context_state_transaction() as tr:
+                tr.mk_context_state(created[0], set_associated=True).Handle = 'lcs.mds1'
         lk.Net.record = True
         lk.start_provider(dev)
         cons = lk.mk_consumer(dev.get_xaddrs()[0])
